@@ -188,3 +188,37 @@ def to_vector_c(c):
                                            isinstance(d['red'], tuple)))
     c.ensures("none-and-false-pass-through", c.call(to_vector, None) is None and c.call(to_vector, False) is False)
     c.canary("not-normalised", c.eq(v.values[0], a))
+
+
+@contract("C01", "hologram_multi_channel", FN + [IF + "ImageFormation._calculate_multiple_color_scattered_field", MD + "dict_to_array",
+                                                 MD + "clean_concat"],
+          bounded="two illumination channels; per-channel wavelength, polarization and scaling dictionaries with independent key orders; 2x1 grid",
+          timeout_ms=60000, max_paths=40)
+def hologram_multi_channel(c):
+    """with several illumination channels the hologram of EACH channel is |scaling_ch * E_ch + unit polarization_ch|^2 summed over x, y -
+    exactly the single-channel hologram computed with that channel's wavelength, polarization and scaling (matched by label, whatever
+    order the dictionaries list the channels in), and the returned per-channel metadata carries each channel's own values"""
+    orders = [("red", "green"), ("green", "red")]
+    lam_order = c.choice("wavelength_key_order", orders)
+    pol_order = c.choice("polarization_key_order", orders)
+    sc_order = c.choice("scaling_key_order", orders)
+    lam = {"red": c.real("lam_red", pos=True, sample=(0.6, 0.7)), "green": c.real("lam_green", pos=True, sample=(0.5, 0.56))}
+    pol = {"red": (1, 0), "green": (0, 1)}
+    alpha = {"red": c.real("scaling_red", sample=(0.3, 1.2)), "green": c.real("scaling_green", sample=(0.3, 1.2))}
+    n, r = c.real("n", pos=True, sample=(1.4, 1.7)), c.real("r", pos=True, sample=(0.2, 1))
+    cen = [c.real("cx", sample=(-1, 1)), c.real("cy", sample=(-1, 1)), c.real("cz", sample=(3, 9))]
+    labels = list(lam_order)
+    det = detector_grid((2, 1), 0.1, extra_dims={'illumination': labels})
+    th = AbstractPointTheory()
+    sph = Sphere(n=n, r=r, center=cen)
+    multi = c.call(calc_holo, det, sph, medium_index=1.33, illum_wavelen={k: lam[k] for k in lam_order},
+                   illum_polarization={k: pol[k] for k in pol_order}, theory=th, scaling={k: alpha[k] for k in sc_order})
+    c.ensures("channel-labels", sorted(multi.illumination.values) == ["green", "red"])
+    for ch in ("red", "green"):
+        one = c.call(calc_holo, detector_grid((2, 1), 0.1), sph, medium_index=1.33, illum_wavelen=lam[ch], illum_polarization=pol[ch],
+                     theory=th, scaling=alpha[ch])
+        c.ensures("channel-hologram-is-the-single-channel-hologram", c.eq(multi.sel(illumination=ch).transpose('x', 'y', 'z').values,
+                                                                          one.transpose('x', 'y', 'z').values))
+        c.ensures("channel-wavelength-in-metadata", c.eq(multi.illum_wavelen.sel(illumination=ch).values, lam[ch]))
+        c.ensures("channel-polarization-in-metadata", c.eq(multi.illum_polarization.sel(illumination=ch).values[:2], np.array(pol[ch], dtype=float)))
+    c.canary("channels-identical", c.eq(multi.sel(illumination="red").values, multi.sel(illumination="green").values))
